@@ -20,6 +20,10 @@ from spec import model as M
 
 META = {
     "level": "other",
+    "explanation": "deductive over values, bounded in shape: for each listed grid shape every index map in {-1..n-1}^n is one path "
+                   "of the path engine running the real coarsegrain.py with symbolic cell volume, amounts, data and unit systems; the "
+                   "obligations of each path are discharged by SMT for all values. Counted as bounded stand-ins (the shape bound), "
+                   "never as unbounded proof.",
     "trusted_base": ["vc/pysym path engine", "z3 / cvc5"],
     "assumptions": ["bounded in the grid shape (and hence in the index map): shapes listed in the case names, all maps over them; "
                     "unbounded (symbolic) in cell volume, amounts, chemostat-independent data and unit systems",
